@@ -153,8 +153,11 @@ func trunc(p []int) []int {
 func genC10(t *rapid.T) c10Case {
 	if mode == "single" || (mode == "" && rapid.IntRange(0, 5).Draw(t, "single") == 0) {
 		n := rapid.SampledFrom([]int{16, 17, 40, 100, 1279, 1280, 4096}).Draw(t, "numbyte")
-		if rapid.Bool().Draw(t, "anylen") {
-			n = rapid.IntRange(16, 5000).Draw(t, "numbyte")
+		switch rapid.IntRange(0, 3).Draw(t, "lenclass") {
+		case 0:
+			n = uniformInt(t, 16, 5000, "numbyte")
+		case 1: // captures larger than common buffer sizes
+			n = rapid.SampledFrom([]int{65535, 65536, 65537, 70000, 131072, 200000}).Draw(t, "numbyte")
 		}
 		kind, plan := drawPlan(t, n)
 		return c10Case{Single: true, NumByte: n, Seed: rapid.Uint64().Draw(t, "seed"), PlanKind: kind, Stream: streamCase{Plan: plan}}
